@@ -17,6 +17,7 @@ class Site:
     def __init__(self, mod, fnode, cls, table, scope, key, value, store, outer=None):
         self.mod, self.fnode, self.cls, self.table, self.scope = mod, fnode, cls, table, scope
         self.key, self.value, self.store, self.outer = key, value, store, outer
+        self.slot = False
 
     @property
     def construct(self):
@@ -115,7 +116,44 @@ def find_sites(prog):
                         read = True
                 if read:
                     sites.append(Site(m, fnode, cls, table, scope, t.slice, n.value, n, outer))
+    sites.extend(find_slot_sites(prog))
     return sites
+
+
+OWN_MEMO_FIELDS = {"dmax", "seqDeltaMax"}        # deltaMax's own two-field memo has its dedicated rules (C15 M1-M4)
+
+
+def find_slot_sites(prog):
+    """one-slot caches: a method stores a computed value in a field of its receiver (`self.F = value`) and, on a later call, returns what is in
+    the field when a test that mentions the field holds (`if self.F is not None and <still valid>: return self.F`).  The 'key' of such a cache is
+    the validity test itself."""
+    out = []
+    for m in prog.mods.values():
+        for fnode, cls, outer in _functions(m):
+            if cls is None or outer is not None or fnode.name == "__init__":
+                continue
+            stores = [n for n in _own_nodes(fnode) if isinstance(n, ast.Assign) and len(n.targets) == 1 and is_self_attr(n.targets[0]) and n.targets[0].attr not in OWN_MEMO_FIELDS]
+            for st in stores:
+                F = st.targets[0].attr
+                if isinstance(st.value, ast.Constant):
+                    continue                       # a reset (None / sentinel), not a stored result
+                # the validity test: an `if` that looks at the field (or at a local bound to it) and either returns the stored value or guards
+                # the recomputation-and-store
+                aliased = {a.targets[0].id for a in _own_nodes(fnode) if isinstance(a, ast.Assign) and len(a.targets) == 1 and isinstance(a.targets[0], ast.Name) and is_self_attr(a.value, F)}
+
+                def looks_at(test):
+                    return any(is_self_attr(x, F) or (isinstance(x, ast.Name) and x.id in aliased) for x in ast.walk(test))
+                guards = [n for n in _own_nodes(fnode) if isinstance(n, ast.If) and looks_at(n.test)
+                          and (any(isinstance(b, ast.Return) for b in ast.walk(ast.Module(body=n.body, type_ignores=[])))
+                               or any(b is st for b in ast.walk(ast.Module(body=n.body + n.orelse, type_ignores=[]))))]
+                if not guards:
+                    continue
+                key = ast.Tuple(elts=[g.test for g in guards], ctx=ast.Load())
+                ast.copy_location(key, guards[0].test)
+                site = Site(m, fnode, cls, F, "object", key, st.value, st, None)
+                site.slot = True
+                out.append(site)
+    return out
 
 
 class Deps:
@@ -560,6 +598,9 @@ def analyse(prog, E):
             if not any(unparse(x) in (site.table, "self." + site.table) for x in ast.walk(test)):
                 valdeps |= d.of(test)
         # control dependence of the store itself and of the value: every guard around assignments is in Deps.of already
+        if getattr(site, "slot", False):
+            keydeps = {k for k in keydeps if k.replace("lossy:", "") != "self." + site.table}
+            valdeps = {k for k in valdeps if k.replace("lossy:", "") != "self." + site.table}
         key_names = {k.replace("lossy:", "") for k in keydeps}
         missing = []
         why = []
@@ -662,7 +703,7 @@ def decorated(prog):
     out = []
     sites = find_sites(prog)
     for f in prog.all_funcs():
-        for dec in f.node.decorator_list:
+        for dec in f.opaque_decorators():
             name = dec.id if isinstance(dec, ast.Name) else (dec.func.id if isinstance(dec, ast.Call) and isinstance(dec.func, ast.Name) else None)
             if name is None:
                 out.append((f, unparse(dec), None))
